@@ -74,6 +74,11 @@ fn main() {
         std::process::exit(2);
     }
 
+    if let Err(e) = vharness::checks::composite::self_test_closed() {
+        println!("INCONCLUSIVE closed-form self-test failed: {}", e);
+        std::process::exit(2);
+    }
+
     let code = match id.as_str() {
         "C01" => drive(&checks::statics::Statics { which: checks::statics::Which::C01 }, &opts),
         "C02" => drive(&checks::statics::Statics { which: checks::statics::Which::C02 }, &opts),
